@@ -39,6 +39,12 @@ def _seg_job(job):
     segs = []
     prev = None
     n = 0
+    asked = []
+    kw = {}
+    if age:
+        kw['age'] = age
+    if esaa:
+        kw['esaa'] = True
     for c in range(lo, hi + 1, step):
         if form == 'int':
             if c % 100:
@@ -46,12 +52,7 @@ def _seg_job(job):
             v = c // 100
         else:
             v = c / 100.0
-        kw = {}
-        if age:
-            kw['age'] = age
-        if esaa:
-            kw['esaa'] = True
-        if n % 64 == 0:
+        if n % 64 == 32:
             # interference: the same mark asked with the option toggled, at another age and without an age just before
             # the recorded call - an answer must not depend on what was asked before (results discarded)
             call(fn, g, e, v, **dict(kw, esaa=not esaa))
@@ -65,7 +66,16 @@ def _seg_job(job):
         else:
             prev = [c, c, r]
             segs.append(prev)
-    return {'k': 'seg', 'g': g, 'e': e, 'age': age or 0, 'esaa': bool(esaa), 'form': form, 'segs': segs, 'n': n}
+        asked.append((c, v, len(segs)))
+    # second pass, in the opposite order, over a sample of the same marks (the first ones - asked before any
+    # interference call - and a stride over the rest): "a better mark never scores fewer points" relates calls made at
+    # different times, so a row changed by an earlier call (an option, another age) must show up against the first pass
+    pick = sorted(set(list(range(0, min(len(asked), 24), 3)) + list(range(0, len(asked), max(1, len(asked) // 40)))), reverse=True)
+    re_ = []
+    for i in pick:
+        c, v, j = asked[i]
+        re_.append([c, call(fn, g, e, v, **kw), j])
+    return {'k': 'seg', 'g': g, 'e': e, 'age': age or 0, 'esaa': bool(esaa), 'form': form, 'segs': segs, 're': re_, 'n': n + len(re_)}
 
 
 def _age_job(job):
@@ -147,6 +157,9 @@ def sweep_jobs(quick, rng, with_age=True):
         for b in (bands if has else [50]):
             for off in (0, 3):
                 jobs.append((g, e, b + off, False, 'float', lo + (b * 7 + off) % step, hi, step))
+        # an age below the first masters band leaves the score unadjusted - whether or not the masters table knows the event
+        for b in (1, 20, 34):
+            jobs.append((g, e, b, False, 'float', lo + (b * 13) % 1999, hi, 1999 if quick else 211))
         marks = sorted(rng.sample(range(lo, hi), 6 if quick else 40))
         for c in marks:
             age_jobs.append((g, e, c, (g, e) == ('M', '800') and c % 2 == 0))
@@ -202,6 +215,8 @@ def run(pid, tier):
         for pr in reports:
             x = recs[pr['index']]
             if pr['kind'] == 'drift':
+                if 'harness_run_index' in pr['clauses']:
+                    raise MachineryError('second-pass record carries a wrong run index')
                 drift_n += 1
                 continue
             for cl in pr['clauses']:
